@@ -447,6 +447,18 @@ def main():
         with open(job["refs"], "rb") as fh:
             refs = pickle.load(fh)
     objs, plains, wraps, counts, bases = {}, {}, {}, {}, {}
+    mems = {0: mem}
+
+    def mem_at(L):
+        """the Memory of cache location L (several cache directories shared by the processes of a history)"""
+        if L not in mems:
+            mems[L] = Memory(job["cache"] + "_loc%d" % L, verbose=sc.get("verbose", 0),
+                             mmap_mode=sc.get("mmap_mode"),
+                             compress=tuple(sc["compress"]) if isinstance(sc["compress"], list) else sc["compress"])
+        return mems[L]
+
+    def wkey(k, L):
+        return k if not L else (k, L)
     valid = VALID
     last_entry = [None]
 
@@ -538,7 +550,8 @@ def main():
                     objs[k] = ns["g"]
                     plains[k] = ns2["g"]
                 counts[k] = ns["_COUNT"]
-                wraps.pop(k, None)
+                for key_ in [q for q in wraps if q == k or (isinstance(q, tuple) and q[0] == k)]:
+                    wraps.pop(key_)
                 res["o"] = "done"
             elif kind == "pickled":
                 # the live wrapper is pickled / copied / hashed (as a Parallel dispatch does); the copy is DISCARDED
@@ -599,8 +612,9 @@ def main():
                 ns2 = {"__name__": "verifplain", "_D": D}
                 exec(compile(src, path + ".plain", "exec"), ns2)
                 objs[k2], counts[k2], plains[k2] = objs[k], counts[k], ns2["g"]
-                if k in wraps:
-                    wraps[k2] = wraps[k]
+                for key_ in list(wraps):
+                    if key_ == k or (isinstance(key_, tuple) and key_[0] == k):
+                        wraps[k2 if key_ == k else (k2, key_[1])] = wraps[key_]
                 res["o"] = "done"
             elif kind == "recode":
                 # the code object is replaced by a freshly compiled EQUAL one (file untouched)
@@ -612,15 +626,17 @@ def main():
                 res["o"] = "done"
             elif kind == "wrap":
                 k = ev[1]
-                wraps[k] = mem.cache(objs[k], ignore=list(sc["ignore"]),
-                                     cache_validation_callback=Validator() if sc.get("callback", True) else None)
+                L = ev[2] if len(ev) > 2 else 0
+                wraps[wkey(k, L)] = mem_at(L).cache(
+                    objs[k], ignore=list(sc["ignore"]),
+                    cache_validation_callback=Validator() if sc.get("callback", True) else None)
                 res["o"] = "done"
-                res["func_id"] = wraps[k].func_id
+                res["func_id"] = wraps[wkey(k, L)].func_id
             elif kind in ("call", "shelve", "check"):
                 k, cs, vld = ev[1], ev[2], ev[3]
                 pos = [dec(v) for v in cs["pos"]]
                 kw = {n: dec(v) for n, v in cs["kw"]}
-                w = wraps[k]
+                w = wraps[wkey(k, ev[4] if len(ev) > 4 else 0)]
                 # oracles: the undecorated twin and Python's own binding
                 try:
                     ba = inspect.signature(plains[k]).bind(*pos, **kw)
@@ -687,10 +703,10 @@ def main():
                 refs[ev[1]].clear()
                 res["o"] = "done"
             elif kind == "clearfunc":
-                wraps[ev[1]].clear(warn=False)
+                wraps[wkey(ev[1], ev[2] if len(ev) > 2 else 0)].clear(warn=False)
                 res["o"] = "done"
             elif kind == "clearmem":
-                mem.clear(warn=False)
+                mem_at(ev[1] if len(ev) > 1 else 0).clear(warn=False)
                 res["o"] = "done"
             elif kind == "evict":
                 # Memory.reduce_size with each kind of limit, in this process or in a SECOND process that shares the
